@@ -40,3 +40,85 @@ Definition destroy_bytes mac hash (txid user realm nonce pass : list Z) : list Z
 Definition probe_msg (txid : list Z) : msg :=
   mkMsg StunClass_Request StunMethod_Binding txid [ASoftware PROBE_SOFTWARE].
 Definition probe_bytes mac (txid : list Z) : list Z := encode mac (probe_msg txid) None true.
+
+(* ------------------------------------------------------------------ the Allocate retry loop
+   TurnClient::allocate: every attempt takes a fresh transaction id and builds its request from
+   the challenge (realm, nonce) of the *previous* response; an error response 401/438 stores the
+   new challenge and continues; anything else ends the loop.  `resps` is the list of server
+   answers: Some (realm, nonce) = challenge, None = final answer. *)
+Fixpoint alloc_loop mac hash (user pass : list Z) (fuel : nat) (info : option (list Z * list Z))
+         (txids : list (list Z)) (resps : list (option (list Z * list Z))) : list (list Z) :=
+  match fuel, txids with
+  | S f, tx :: txs =>
+    let req := match info with
+               | None => allocate_plain_bytes mac tx
+               | Some (realm, nonce) => allocate_auth_bytes mac hash tx user realm nonce pass
+               end in
+    req :: match resps with
+           | Some ch :: rs => alloc_loop mac hash user pass f (Some ch) txs rs
+           | _ => []
+           end
+  | _, _ => []
+  end.
+Definition allocate_requests mac hash user pass txids resps : list (list Z) :=
+  alloc_loop mac hash user pass (Z.to_nat ALLOC_MAX_ATTEMPTS) None txids resps.
+
+(* ------------------------------------------------------------------ requests on an allocation
+   (create_permission_packet, create_channel_bind_packet, send_indication with auth state);
+   realm / nonce / key are those stored by the successful Allocate *)
+Definition perm_msg (txid user realm nonce : list Z) (peer : addr) : msg :=
+  mkMsg StunClass_Request StunMethod_CreatePermission txid
+        [AUsername user; ARealm realm; ANonce nonce; AXorPeer peer].
+Definition bind_msg (txid : list Z) (ch : Z) (peer : addr) (user realm nonce : list Z) : msg :=
+  mkMsg StunClass_Request StunMethod_ChannelBind txid
+        [AChannelNumber ch; AXorPeer peer; AUsername user; ARealm realm; ANonce nonce].
+Definition send_msg (txid user realm nonce : list Z) (peer : addr) (data : list Z) : msg :=
+  mkMsg StunClass_Indication StunMethod_Send txid
+        [AUsername user; ARealm realm; ANonce nonce; AXorPeer peer; AData data].
+Definition perm_bytes mac hash txid user realm nonce pass peer : list Z :=
+  encode mac (perm_msg txid user realm nonce peer) (Some (long_term_key hash user realm pass)) true.
+Definition bind_bytes mac hash txid ch peer user realm nonce pass : list Z :=
+  encode mac (bind_msg txid ch peer user realm nonce) (Some (long_term_key hash user realm pass)) true.
+Definition send_bytes mac hash txid user realm nonce pass peer data : list Z :=
+  encode mac (send_msg txid user realm nonce peer data) (Some (long_term_key hash user realm pass)) true.
+
+(* ------------------------------------------------------------------ channel numbers
+   create_channel_bind_packet: n = *next; if n >= 0x7FFF { *next = 0x4000 } else { *next += 1 }; n *)
+Definition chan_step (next : Z) : Z * Z :=
+  (next, if next >=? CHANNEL_WRAP_AT then CHANNEL_WRAP_TO else next + 1).
+Fixpoint chan_seq (k : nat) (next : Z) : list Z :=
+  match k with
+  | O => []
+  | S k' => fst (chan_step next) :: chan_seq k' (snd (chan_step next))
+  end.
+
+(* ------------------------------------------------------------------ ChannelData and transport framing
+   send_channel_data: channel number, 16-bit length, data -- no padding; then TurnClient::send:
+   UDP: the datagram is the message; TCP: a 16-bit length prefix and the message *)
+Definition channel_data (ch : Z) (data : list Z) : list Z :=
+  be16 ch ++ be16 (cast_u16 (zlen data)) ++ data.
+Definition udp_send (m : list Z) : list Z := m.
+Definition tcp_send (m : list Z) : list Z := be16 (cast_u16 (zlen m)) ++ m.
+
+(* RFC 5766 11.4 reader (spec side): channel in 0x4000..0x7FFF, length within the bytes present,
+   trailing padding ignored *)
+Definition parse_channel_data (b : list Z) : option (Z * list Z) :=
+  if zlen b <? 4 then None
+  else
+    let ch := of_be16 (byte_at b 0) (byte_at b 1) in
+    let len := of_be16 (byte_at b 2) (byte_at b 3) in
+    if (16384 <=? ch) && (ch <=? 32767) && (len <=? zlen b - 4)
+    then Some (ch, firstn (Z.to_nat len) (skipn 4 b)) else None.
+
+(* RFC 5389 7.2.2 / RFC 5766 2.1 reader of a TCP stream (spec side): the first unit is a STUN
+   message framed by its own length field (magic cookie in place) or a ChannelData message
+   padded to a multiple of four *)
+Definition rfc_tcp_first (s : list Z) : option (list Z) :=
+  if zlen s <? 4 then None
+  else if byte_at s 0 <? 64 then
+    let n := 20 + of_be16 (byte_at s 2) (byte_at s 3) in
+    if (n <=? zlen s) && list_eqb (firstn 4 (skipn 4 s)) cookie_bytes then Some (firstn (Z.to_nat n) s) else None
+  else
+    let n := 4 + of_be16 (byte_at s 2) (byte_at s 3) in
+    let padded := n + (4 - n mod 4) mod 4 in
+    if padded <=? zlen s then Some (firstn (Z.to_nat n) s) else None.
